@@ -392,15 +392,7 @@ func switchTable(f *ssa.Function, v ssa.Value) map[string]string {
 			continue
 		}
 		tgt := b.Succs[0]
-		name := "?"
-		for _, in := range tgt.Instrs {
-			if cl, ok := in.(*ssa.Call); ok {
-				if fn := calleeFunc(&cl.Call); fn != nil && strings.HasPrefix(qname(fn), modPath) {
-					name = fn.Name()
-					break
-				}
-			}
-		}
+		name := firstModuleCall(tgt.Instrs, 0)
 		out[fmt.Sprint(k)] = name
 	}
 	return out
@@ -917,4 +909,32 @@ func (c *Ctx) signedWorkchain() {
 	if n < 5 {
 		c.bad(R, "generateAddress call sites found", token.NoPos, fmt.Sprintf("only %d calls of wallet.generateAddress found; one per wallet version was confirmed", n))
 	}
+}
+
+// switchTableKnown: names the rule's table knows are kept; any other unexported helper standing first in
+// a case is looked through to the first in-module call it makes itself (a step of the case extracted
+// into a helper).
+var switchTableKnown = map[string]bool{
+	"newWalletV1V2": true, "newWalletV3": true, "newWalletV4": true, "newWalletHighloadV2": true,
+	"extractSignedMsgBody": true, "decodeMessageV3": true, "decodeMessageV4": true, "decodeHighloadV2Message": true,
+}
+
+func firstModuleCall(instrs []ssa.Instruction, depth int) string {
+	for _, in := range instrs {
+		cl, ok := in.(*ssa.Call)
+		if !ok {
+			continue
+		}
+		fn := calleeFunc(&cl.Call)
+		if fn == nil || !strings.HasPrefix(qname(fn), modPath) {
+			continue
+		}
+		if h := plainHelper(cl.Call.StaticCallee()); h != nil && !switchTableKnown[fn.Name()] && depth < 2 && len(h.Blocks) > 0 {
+			if inner := firstModuleCall(h.Blocks[0].Instrs, depth+1); inner != "?" {
+				return inner
+			}
+		}
+		return fn.Name()
+	}
+	return "?"
 }
